@@ -1,6 +1,7 @@
 import SageModel.Model.C02
 import SageModel.Props.C03
 import SageModel.Props.C10
+import SageModel.Props.C04
 import Mathlib.Order.Defs.LinearOrder
 import Mathlib.Tactic.Order
 import Mathlib.Data.Prod.Lex
@@ -42,9 +43,13 @@ The chain, link by link (each link is a theorem; the composition is the property
 5. `chimera_spec`, `chimeraRun_ranks`, `scoreVector_head_best` — chimeric mode: round by round the best retained
    candidate on the spectrum left after removing the previous PSMs' peaks.
 
-Not proved (compared through the correspondence only): the label (`peptide.label()` of the indexed peptide), the
-`scored_candidates` counter, `remove_matched_peaks` itself (a parameter of `chimera_spec`), and the full scorer
-(`score_candidate` is C04's subject; here it is an arbitrary function).
+6. At the level of `Scorer::score`, both modes: `search_ranks`, `search_in_window_all` (`InWindow`),
+   `search_in_window_wide`, `search_chimera_rounds`, `search_chimera_best` (per-round `no_better_left_out` on the residual
+   spectrum `residual (removeOn …) peaks (out.take i)`), `scored_exact` / `search_scored`, `label_spec`,
+   `removeMatched_spec`, `removeMatched_tic`.
+
+Not proved: the full scorer (`score_candidate` is C04's subject; the ranking theorems hold for every scorer), IEEE
+rounding, and lawfulness of `f32 ==` (NaN-free data) in `removeMatched_spec`.
 -/
 
 namespace Sage.C02
@@ -1077,5 +1082,568 @@ example : (chimeraLoop (fun (x y : Int) => decide (x ≤ y)) (· - ·) 0 exChimS
 /-- with `report_psms = 5` the run stops after 4 PSMs: nothing reaches `min_matched_peaks = 2` any more -/
 example : (chimeraLoop (fun (x y : Int) => decide (x ≤ y)) (· - ·) 0 exChimScore (fun q f => f.pep :: q) 2 5 exPrelim 5 [] []).map
     (fun p => (p.pep, p.rank)) = [(2, 1), (7, 2), (0, 3), (9, 4)] := by decide
+
+/-! ## all modes: window, ranks; chimeric rounds at the level of `Scorer::score` -/
+
+section allmodes
+variable {α β : Type} [LinearOrder α]
+
+/-- the conclusion of `search_in_window` as a predicate on (peptide, charge, isotope error): the pair was searched,
+    the peptide's mass lies in that pair's precursor window, and ≥ 1 indexed fragment of the peptide matches -/
+def InWindow (E : Env α β) (db : Db α) (cfg : Cfg α) (peaks : List (Peak α)) (prec : Precursor α)
+    (pep charge : Nat) (iso : Int) : Prop :=
+  ∃ zt ∈ searched E cfg prec, ∃ e ∈ isotopes cfg.isoLo cfg.isoHi, charge = zt.1 ∧ iso = e ∧
+    (∃ m, db.masses[pep]? = some m ∧
+      (Sage.C04.tolBounds E zt.2 (queryMass E (E.mul (E.sub prec.mz E.proton) (E.ofNat zt.1)) e)).1 ≤ m ∧
+      m ≤ (Sage.C04.tolBounds E zt.2 (queryMass E (E.mul (E.sub prec.mz E.proton) (E.ofNat zt.1)) e)).2) ∧
+    0 < ((scanHits E db zt.2 cfg.ftol (queryMass E (E.mul (E.sub prec.mz E.proton) (E.ofNat zt.1)) e) peaks
+          (Sage.C04.maxFragmentCharge cfg.mfc zt.1)).map (·.pep)).count pep
+
+/-- every retained preliminary entry with `matched > 0` is in the window of the (charge, isotope) pair it records -/
+theorem prelim_in_window (E : Env α β) (db : Db α) (inv : Sage.C03.DbInv db.masses db.minv db.frags db.B)
+    (cfg : Cfg α) (peaks : List (Peak α)) (prec : Precursor α) (c : PreScore)
+    (hc : c ∈ (initialHits E db cfg peaks prec).prelim.toList) (hm : 0 < c.matched) :
+    InWindow E db cfg peaks prec c.peptide c.charge c.iso := by
+  obtain ⟨zt, hzt, e, he, hx⟩ := mem_initialHits E db cfg peaks prec c hc
+  refine ⟨zt, hzt, e, he, ?_⟩
+  obtain ⟨i, hi⟩ := List.mem_iff_getElem?.mp hx
+  have hce := candidates_exact E db inv cfg.ftol zt.2 cfg.mfc peaks (E.mul (E.sub prec.mz E.proton) (E.ofNat zt.1)) zt.1 e
+  simp only at hce
+  obtain ⟨_, _, hwin, hcnt⟩ := hce
+  have hi' : (mpwiRaw E db cfg.ftol cfg.mfc peaks (E.mul (E.sub prec.mz E.proton) (E.ofNat zt.1)) zt.1 zt.2 e).prelim[i]? = some c := by
+    simpa using hi
+  have hilt := (Array.getElem?_eq_some_iff.mp hi').1
+  obtain ⟨sc, hsc, hcount, _, hpos⟩ := hcnt i hilt
+  rw [hi'] at hsc
+  cases hsc
+  obtain ⟨hpep, hz, hiso⟩ := hpos hm
+  refine ⟨hz, hiso, ?_, ?_⟩
+  · have hpos' : 0 < List.count c.peptide (List.map (·.pep) (scanHits E db zt.2 cfg.ftol
+        (queryMass E (E.mul (E.sub prec.mz E.proton) (E.ofNat zt.1)) e) peaks (Sage.C04.maxFragmentCharge cfg.mfc zt.1))) := by
+      rw [hpep, ← hcount]; exact hm
+    obtain ⟨f, hf, hfe⟩ := List.mem_map.mp (List.count_pos_iff.mp hpos')
+    obtain ⟨_, _, m, hm1, hm2, hm3⟩ := hwin f hf
+    rw [← hfe]
+    exact ⟨m, hm1, hm2, hm3⟩
+  · rw [hpep, ← hcount]; exact hm
+
+end allmodes
+
+section chimera2
+variable {σ β : Type} (tle : β → β → Bool) (sub : β → β → β) (zero : β)
+  (score : σ → PreScore → Cand β) (remove : σ → Psm β → σ) (minMatched r : Nat) (prelim : List PreScore)
+
+/-- the spectrum left after removing the peaks of the PSMs `ps`, in order -/
+def residual (remove : σ → Psm β → σ) (q : σ) (ps : List (Psm β)) : σ := ps.foldl remove q
+
+/-- a `ChimeraRun` round by round, with the residual spectrum written out: PSM `i` of the run is the head of the
+    descending score vector computed on the spectrum left after PSMs `0..i-1`, with rank `n + i + 1`; and if the run
+    ends before `report_psms` PSMs are out, the score vector on the final residual spectrum is empty.
+    (`remove` must not read the rank — `remove_matched_peaks` reads the peptide and the charge only — because the
+    code overwrites the rank after the removal.) -/
+theorem chimeraRun_rounds (hrem : ∀ (q : σ) (f : Psm β) (k : Nat), remove q { f with rank := k } = remove q f)
+    (q : σ) (n : Nat) (rest : List (Psm β))
+    (h : ChimeraRun tle sub zero score remove minMatched r prelim q n rest) :
+    (∀ (i : Nat) (p : Psm β), rest[i]? = some p → ∃ c sv',
+        scoreVector tle (score (residual remove q (rest.take i))) minMatched prelim = c :: sv' ∧
+        p = { mkPsm sub zero (c :: sv') c 0 with rank := n + i + 1 }) ∧
+    (n + rest.length < r → scoreVector tle (score (residual remove q rest)) minMatched prelim = []) := by
+  induction h with
+  | full q n hn => exact ⟨by simp, by simp; omega⟩
+  | stop q n _ hsv => exact ⟨by simp, fun _ => hsv⟩
+  | step q n c sv' rest hn hsv _ ih =>
+    have hres : ∀ l : List (Psm β),
+        residual remove q ({ mkPsm sub zero (c :: sv') c 0 with rank := n + 1 } :: l) =
+        residual remove (remove q (mkPsm sub zero (c :: sv') c 0)) l := by
+      intro l
+      simp only [residual, List.foldl_cons, hrem]
+    refine ⟨?_, ?_⟩
+    · intro i p hp
+      cases i with
+      | zero =>
+        simp only [List.getElem?_cons_zero, Option.some.injEq] at hp
+        exact ⟨c, sv', by simpa [residual] using hsv, by rw [← hp]⟩
+      | succ i =>
+        obtain ⟨c', sv'', h1, h2⟩ := ih.1 i p (by simpa using hp)
+        refine ⟨c', sv'', ?_, ?_⟩
+        · rw [List.take_succ_cons, hres]; exact h1
+        · rw [h2, show n + 1 + i + 1 = n + (i + 1) + 1 by omega]
+    · intro hlt
+      rw [hres]
+      have hl : n + (rest.length + 1) < r := by simpa using hlt
+      exact ih.2 (by omega)
+
+end chimera2
+
+section searchlevel
+variable {α β : Type} [LinearOrder α] [BEq α]
+
+/-- `score_candidate` on the spectrum `q` with the scorer's settings -/
+def scoreOn (E : Env α β) (cfg : Cfg α) (info : PepInfo α) (q : Array (Peak α)) : PreScore → Cand β :=
+  scoreCand E cfg.ftol cfg.mfc info q
+
+/-- `remove_matched_peaks(&mut query, psm)` with the scorer's settings (reads `psm.peptide_idx`, `psm.charge`) -/
+def removeOn (E : Env α β) (cfg : Cfg α) (info : PepInfo α) (q : Array (Peak α)) (f : Psm β) : Array (Peak α) :=
+  removeMatched E cfg.ftol cfg.mfc info q f.pep f.charge
+
+theorem search_chimera_eq (E : Env α β) (tle : β → β → Bool) (db : Db α) (cfg : Cfg α) (info : PepInfo α)
+    (peaks : List (Peak α)) (prec : Precursor α) (hch : cfg.chimera = true) :
+    (search E tle db cfg info peaks prec).2 =
+      chimeraLoop tle E.subD (E.ofNatD 0) (scoreOn E cfg info) (removeOn E cfg info) cfg.minMatched cfg.reportPsms
+        (initialHits E db cfg peaks prec).prelim.toList cfg.reportPsms peaks.toArray [] := by
+  unfold search
+  simp only [hch, if_true]
+  rfl
+
+theorem search_standard_eq (E : Env α β) (tle : β → β → Bool) (db : Db α) (cfg : Cfg α) (info : PepInfo α)
+    (peaks : List (Peak α)) (prec : Precursor α) (hstd : cfg.chimera = false) :
+    (search E tle db cfg info peaks prec).2 =
+      buildFeatures tle E.subD (E.ofNatD 0) (scoreOn E cfg info peaks.toArray) cfg.minMatched cfg.reportPsms
+        (initialHits E db cfg peaks prec).prelim.toList := by
+  unfold search
+  simp only [hstd]
+  rfl
+
+/-- **C02.search_chimera_rounds** — `Scorer::score` with `chimera = true` (the concrete `score_candidate` and
+    `remove_matched_peaks`), every input: with `resid i` = the query spectrum after `remove_matched_peaks` for the
+    reported PSMs `0..i-1` (in order), and `prelim` = the retained preliminary entries of the ORIGINAL spectrum:
+    `k ≤ report_psms`; PSM `i` has rank `i + 1` and is the head of the descending score vector computed on `resid i`
+    (`delta_next` = gap to that round's runner-up or `hs − 0`, `delta_best = hs − hs`); and if `k < report_psms` the
+    score vector on `resid k` is empty. -/
+theorem search_chimera_rounds (E : Env α β) (tle : β → β → Bool) (db : Db α) (cfg : Cfg α) (info : PepInfo α)
+    (peaks : List (Peak α)) (prec : Precursor α) (hch : cfg.chimera = true) :
+    let prelim := (initialHits E db cfg peaks prec).prelim.toList
+    let out := (search E tle db cfg info peaks prec).2
+    let resid := fun (i : Nat) => residual (removeOn E cfg info) peaks.toArray (out.take i)
+    out.length ≤ cfg.reportPsms ∧
+    (∀ (i : Nat) (p : Psm β), out[i]? = some p → p.rank = i + 1 ∧ ∃ c sv',
+        scoreVector tle (scoreOn E cfg info (resid i)) cfg.minMatched prelim = c :: sv' ∧
+        p = { mkPsm E.subD (E.ofNatD 0) (c :: sv') c 0 with rank := i + 1 }) ∧
+    (out.length < cfg.reportPsms →
+        scoreVector tle (scoreOn E cfg info (resid out.length)) cfg.minMatched prelim = []) := by
+  intro prelim out resid
+  obtain ⟨rest, hrest, hrun⟩ := chimera_spec tle E.subD (E.ofNatD 0) (scoreOn E cfg info) (removeOn E cfg info)
+    cfg.minMatched cfg.reportPsms prelim cfg.reportPsms peaks.toArray [] (by simp)
+  have hout : out = rest := by
+    show (search E tle db cfg info peaks prec).2 = rest
+    rw [search_chimera_eq E tle db cfg info peaks prec hch, hrest]; rfl
+  simp only [List.length_nil] at hrun
+  have hranks := chimeraRun_ranks tle E.subD (E.ofNatD 0) (scoreOn E cfg info) (removeOn E cfg info)
+    cfg.minMatched cfg.reportPsms prelim peaks.toArray 0 rest hrun
+  have hrounds := chimeraRun_rounds tle E.subD (E.ofNatD 0) (scoreOn E cfg info) (removeOn E cfg info)
+    cfg.minMatched cfg.reportPsms prelim (fun _ _ _ => rfl) peaks.toArray 0 rest hrun
+  refine ⟨?_, ?_, ?_⟩
+  · rw [hout]
+    by_cases hr : rest = []
+    · subst hr; simp
+    · have := hranks.2 hr; omega
+  · intro i p hp
+    rw [hout] at hp
+    obtain ⟨c, sv', h1, h2⟩ := hrounds.1 i p hp
+    refine ⟨by rw [h2]; simp, c, sv', ?_, by rw [h2]; simp⟩
+    show scoreVector tle (scoreOn E cfg info (residual (removeOn E cfg info) peaks.toArray (out.take i))) cfg.minMatched prelim = _
+    rw [hout]; exact h1
+  · intro hlt
+    rw [hout] at hlt
+    show scoreVector tle (scoreOn E cfg info (residual (removeOn E cfg info) peaks.toArray (out.take out.length))) cfg.minMatched prelim = _
+    rw [hout, List.take_length]
+    exact hrounds.2 (by omega)
+
+/-- **C02.search_chimera_best** — the chimeric `no_better_left_out`, per round (hyperscores under any total preorder):
+    PSM `i` is the full score ON `resid i` of a retained entry with `matched > 0` reaching `min_matched_peaks` there
+    (peptide, charge, isotope error copied), every retained candidate reaching `min_matched_peaks` on `resid i`
+    scores `≤` it, and a slot stays empty (`k < report_psms`) only if NO retained candidate reaches
+    `min_matched_peaks` on the final residual spectrum. -/
+theorem search_chimera_best (E : Env α β) (tle : β → β → Bool) (htle : TotalPre tle) (db : Db α) (cfg : Cfg α)
+    (info : PepInfo α) (peaks : List (Peak α)) (prec : Precursor α) (hch : cfg.chimera = true) :
+    let prelim := (initialHits E db cfg peaks prec).prelim.toList
+    let out := (search E tle db cfg info peaks prec).2
+    let resid := fun (i : Nat) => residual (removeOn E cfg info) peaks.toArray (out.take i)
+    (∀ (i : Nat) (p : Psm β), out[i]? = some p →
+        (∃ pre ∈ prelim, 0 < pre.matched ∧ cfg.minMatched ≤ (scoreOn E cfg info (resid i) pre).matched ∧
+          p.pep = pre.peptide ∧ p.charge = pre.charge ∧ p.iso = pre.iso ∧
+          p.hs = (scoreOn E cfg info (resid i) pre).hs ∧ p.matched = (scoreOn E cfg info (resid i) pre).matched) ∧
+        ∀ pre ∈ prelim, 0 < pre.matched → cfg.minMatched ≤ (scoreOn E cfg info (resid i) pre).matched →
+          tle (scoreOn E cfg info (resid i) pre).hs p.hs = true) ∧
+    (out.length < cfg.reportPsms → ∀ pre ∈ prelim, 0 < pre.matched →
+        (scoreOn E cfg info (resid out.length) pre).matched < cfg.minMatched) := by
+  intro prelim out resid
+  obtain ⟨_, hround, hstop⟩ := search_chimera_rounds E tle db cfg info peaks prec hch
+  refine ⟨?_, ?_⟩
+  · intro i p hp
+    obtain ⟨_, c, sv', hsv, hpe⟩ := hround i p hp
+    obtain ⟨⟨pre, hpre, hm, hc, hmin⟩, hbest⟩ :=
+      scoreVector_head_best tle cfg.minMatched prelim htle (scoreOn E cfg info (resid i)) c sv' hsv
+    refine ⟨⟨pre, hpre, hm, by rw [← hc]; exact hmin, ?_, ?_, ?_, ?_, ?_⟩, ?_⟩
+    · rw [hpe, hc]; rfl
+    · rw [hpe, hc]; rfl
+    · rw [hpe, hc]; rfl
+    · rw [hpe, hc]; rfl
+    · rw [hpe, hc]; rfl
+    · intro pre' hpre' hm' hmin'
+      have := hbest pre' hpre' hm' hmin'
+      rw [hpe]; exact this
+  · intro hlt pre hpre hm
+    have hnil := hstop hlt
+    by_contra hnot
+    have : scoreOn E cfg info (resid out.length) pre ∈
+        scoreVector tle (scoreOn E cfg info (resid out.length)) cfg.minMatched prelim :=
+      (mem_scoreVector tle _ cfg.minMatched prelim _).mpr ⟨pre, hpre, hm, rfl, by omega⟩
+    rw [hnil] at this
+    simp at this
+
+/-- **C02.search_ranks** — both modes, no hypothesis: `k ≤ report_psms` and the PSM at position `i` has rank `i + 1`. -/
+theorem search_ranks (E : Env α β) (tle : β → β → Bool) (db : Db α) (cfg : Cfg α) (info : PepInfo α)
+    (peaks : List (Peak α)) (prec : Precursor α) :
+    let out := (search E tle db cfg info peaks prec).2
+    out.length ≤ cfg.reportPsms ∧ ∀ (i : Nat) (p : Psm β), out[i]? = some p → p.rank = i + 1 := by
+  intro out
+  by_cases hch : cfg.chimera = true
+  · obtain ⟨h1, h2, _⟩ := search_chimera_rounds E tle db cfg info peaks prec hch
+    exact ⟨h1, fun i p hp => (h2 i p hp).1⟩
+  · have hstd : cfg.chimera = false := by simpa using hch
+    have hout : out = reportFrom E.subD (E.ofNatD 0)
+        (scoreVector tle (scoreOn E cfg info peaks.toArray) cfg.minMatched (initialHits E db cfg peaks prec).prelim.toList)
+        cfg.reportPsms := search_standard_eq E tle db cfg info peaks prec hstd
+    refine ⟨by rw [hout, reportFrom_length]; omega, ?_⟩
+    intro i p hp
+    rw [hout, reportFrom_getElem?] at hp
+    split at hp
+    · obtain ⟨c, _, rfl⟩ := Option.map_eq_some_iff.mp hp
+      rfl
+    · simp at hp
+
+/-- **C02.search_in_window_all** — `search_in_window` without the mode hypothesis (standard AND chimeric): every
+    reported PSM satisfies `InWindow` — searched (charge, isotope) pair, peptide mass in that pair's precursor window,
+    ≥ 1 indexed fragment matched on the ORIGINAL spectrum. `InWindow` unfolds to the conclusion of `search_in_window`. -/
+theorem search_in_window_all (E : Env α β) (tle : β → β → Bool) (db : Db α)
+    (inv : Sage.C03.DbInv db.masses db.minv db.frags db.B) (cfg : Cfg α) (info : PepInfo α)
+    (peaks : List (Peak α)) (prec : Precursor α) (p : Psm β) (hp : p ∈ (search E tle db cfg info peaks prec).2) :
+    InWindow E db cfg peaks prec p.pep p.charge p.iso := by
+  by_cases hch : cfg.chimera = true
+  · obtain ⟨i, hi⟩ := List.mem_iff_getElem?.mp hp
+    obtain ⟨_, hround, _⟩ := search_chimera_rounds E tle db cfg info peaks prec hch
+    obtain ⟨_, c, sv', hsv, hpe⟩ := hround i p hi
+    have hmem : c ∈ scoreVector tle (scoreOn E cfg info
+        (residual (removeOn E cfg info) peaks.toArray ((search E tle db cfg info peaks prec).2.take i)))
+        cfg.minMatched (initialHits E db cfg peaks prec).prelim.toList := by rw [hsv]; exact List.mem_cons_self
+    obtain ⟨pre, hpre, hm, hc, _⟩ := (mem_scoreVector tle _ _ _ c).mp hmem
+    have := prelim_in_window E db inv cfg peaks prec pre hpre hm
+    rw [hpe, hc]
+    exact this
+  · have hstd : cfg.chimera = false := by simpa using hch
+    exact search_in_window E tle db inv cfg info peaks prec hstd p hp
+
+/-- **C02.search_in_window_wide** — `wide_window = true` (both modes): the reported charge lies in
+    `min_precursor_charge..=max_precursor_charge`, the isotope error was searched, and the peptide's mass lies within
+    `Tolerance::bounds` of `(isolation_window.unwrap_or(Da(-2.4, 2.4)) * charge)` around
+    `(mz − PROTON)·charge − isotope·NEUTRON` — the isolation window scaled by the charge, not `precursor_tol`. -/
+theorem search_in_window_wide (E : Env α β) (tle : β → β → Bool) (db : Db α)
+    (inv : Sage.C03.DbInv db.masses db.minv db.frags db.B) (cfg : Cfg α) (info : PepInfo α)
+    (peaks : List (Peak α)) (prec : Precursor α) (hw : cfg.wideWindow = true)
+    (p : Psm β) (hp : p ∈ (search E tle db cfg info peaks prec).2) :
+    p.charge ∈ chargeRange cfg.zLo cfg.zHi ∧ p.iso ∈ isotopes cfg.isoLo cfg.isoHi ∧
+    ∃ m, db.masses[p.pep]? = some m ∧
+      let tol := tolMul E (prec.isoWin.getD cfg.defaultIsoWin) (E.ofNat p.charge)
+      let pm := E.mul (E.sub prec.mz E.proton) (E.ofNat p.charge)
+      (Sage.C04.tolBounds E tol (queryMass E pm p.iso)).1 ≤ m ∧ m ≤ (Sage.C04.tolBounds E tol (queryMass E pm p.iso)).2 := by
+  obtain ⟨zt, hzt, e, he, hz, hi, ⟨m, hm, h1, h2⟩, _⟩ := search_in_window_all E tle db inv cfg info peaks prec p hp
+  unfold searched at hzt
+  rw [if_pos hw] at hzt
+  obtain ⟨z, hzr, rfl⟩ := List.mem_map.mp hzt
+  simp only at hz h1 h2
+  subst hz hi
+  exact ⟨hzr, he, m, hm, h1, h2⟩
+
+end searchlevel
+
+/-! ## `scored_candidates` -/
+
+/-- a dense slot (or preliminary entry) with at least one match -/
+def PreScore.pos (p : PreScore) : Bool := decide (0 < p.matched)
+
+theorem length_filter_set (P : PreScore → Bool) : ∀ (l : List PreScore) (i : Nat) (a b : PreScore), l[i]? = some a →
+    ((l.set i b).filter P).length + (if P a then 1 else 0) = (l.filter P).length + (if P b then 1 else 0) := by
+  intro l
+  induction l with
+  | nil => intro i a b h; simp at h
+  | cons x xs ih =>
+    intro i a b h
+    cases i with
+    | zero =>
+      simp only [List.getElem?_cons_zero, Option.some.injEq] at h
+      subst h
+      simp only [List.set_cons_zero, List.filter_cons]
+      by_cases hx : P x <;> by_cases hb : P b <;> simp [hx, hb]
+    | succ i =>
+      have := ih i a b (by simpa using h)
+      simp only [List.set_cons_succ, List.filter_cons]
+      by_cases hx : P x <;> simp [hx] <;> omega
+
+/-- the loop body keeps `scored_candidates` = number of slots with a positive count -/
+theorem bump_scored (lo z : Nat) (e : Int) (h : Hits) (p : Nat)
+    (hs : h.scored = (h.prelim.toList.filter PreScore.pos).length) :
+    (bump lo z e h p).scored = ((bump lo z e h p).prelim.toList.filter PreScore.pos).length := by
+  unfold bump
+  split
+  · cases hsc : h.prelim[p - lo]? with
+    | none => simpa using hs
+    | some sc =>
+      simp only
+      have hl : h.prelim.toList[p - lo]? = some sc := by simpa using hsc
+      split
+      · rename_i hm
+        have := length_filter_set PreScore.pos h.prelim.toList (p - lo) sc
+          { matched := 1, peptide := p, charge := z, iso := e } hl
+        simp only [Array.toList_setIfInBounds]
+        have h1 : PreScore.pos sc = false := by simp [PreScore.pos, hm]
+        have h2 : PreScore.pos { matched := 1, peptide := p, charge := z, iso := e } = true := by simp [PreScore.pos]
+        rw [h1, h2] at this
+        simp at this
+        omega
+      · rename_i hm
+        have := length_filter_set PreScore.pos h.prelim.toList (p - lo) sc { sc with matched := sc.matched + 1 } hl
+        simp only [Array.toList_setIfInBounds]
+        have h1 : PreScore.pos sc = true := by simp [PreScore.pos]; omega
+        have h2 : PreScore.pos { sc with matched := sc.matched + 1 } = true := by simp [PreScore.pos]
+        rw [h1, h2] at this
+        simp at this
+        omega
+  · exact hs
+
+theorem foldl_bump_scored (lo z : Nat) (e : Int) : ∀ (L : List Nat) (h : Hits),
+    h.scored = (h.prelim.toList.filter PreScore.pos).length →
+    (L.foldl (bump lo z e) h).scored = ((L.foldl (bump lo z e) h).prelim.toList.filter PreScore.pos).length := by
+  intro L
+  induction L with
+  | nil => intro h hs; exact hs
+  | cons p ps ih => intro h hs; exact ih _ (bump_scored lo z e h p hs)
+
+theorem foldl_add_scored {ι : Type} (f : ι → Hits) : ∀ (l : List ι) (init : Hits),
+    (l.foldl (fun h e => h.add (f e)) init).scored = init.scored + (l.map fun e => (f e).scored).sum := by
+  intro l
+  induction l with
+  | nil => intro init; simp
+  | cons a as ih =>
+    intro init
+    rw [List.foldl_cons, ih]
+    simp [Hits.add]; omega
+
+theorem length_filter_flatMap {ι : Type} (g : ι → List PreScore) (P : PreScore → Bool) (l : List ι) :
+    ((l.flatMap g).filter P).length = (l.map fun e => ((g e).filter P).length).sum := by
+  induction l with
+  | nil => simp
+  | cons a as ih => simp [List.flatMap_cons, List.filter_append, ih]
+
+section scored
+variable {α β : Type} [LinearOrder α]
+
+theorem mpwiRaw_scored (E : Env α β) (db : Db α) (ftol : Tol α) (mfcCfg : Option Nat) (peaks : List (Peak α))
+    (pm : α) (z : Nat) (ptol : Tol α) (e : Int) :
+    (mpwiRaw E db ftol mfcCfg peaks pm z ptol e).scored =
+      ((mpwiRaw E db ftol mfcCfg peaks pm z ptol e).prelim.toList.filter PreScore.pos).length := by
+  unfold mpwiRaw
+  apply foldl_bump_scored
+  have hz : ∀ n : Nat, (List.filter PreScore.pos (List.replicate n (default : PreScore))).length = 0 := by
+    intro n
+    rw [List.length_eq_zero_iff, List.filter_eq_nil_iff]
+    intro a ha
+    rw [(List.mem_replicate.mp ha).2]
+    decide
+  simp only [Array.toList_replicate, hz]
+
+theorem mpwi_scored (E : Env α β) (db : Db α) (cfg : Cfg α) (peaks : List (Peak α)) (pm : α) (z : Nat) (ptol : Tol α)
+    (e : Int) : (mpwi E db cfg peaks pm z ptol e).scored = (mpwiRaw E db cfg.ftol cfg.mfc peaks pm z ptol e).scored := by
+  unfold mpwi
+  simp only
+  split <;> rfl
+
+theorem matchedPeaks_scored (E : Env α β) (db : Db α) (cfg : Cfg α) (peaks : List (Peak α)) (pm : α) (z : Nat)
+    (ptol : Tol α) :
+    (matchedPeaks E db cfg peaks pm z ptol).scored = ((rawOf E db cfg peaks pm z ptol).filter PreScore.pos).length := by
+  unfold matchedPeaks rawOf isotopes
+  split
+  · show ((isoRange cfg.isoLo cfg.isoHi).foldl (fun (h : Hits) e => h.add (mpwi E db cfg peaks pm z ptol e)) {}).scored = _
+    rw [foldl_add_scored, length_filter_flatMap]
+    simp only [mpwi_scored, mpwiRaw_scored]
+    show 0 + _ = _
+    omega
+  · rw [mpwi_scored, mpwiRaw_scored]; simp
+
+/-- **C02.scored_exact** — `scored_candidates` (`hits.scored_candidates`, summed by `AddAssign` over isotope errors and
+    charges, untouched by `trim_hits`) is the number of dense-vector slots with a positive count over ALL searched
+    windows, before any trimming — in all three charge modes and both isotope branches. With `candidates_exact`:
+    the number of (peptide, charge, isotope) candidates having ≥ 1 indexed fragment matched. -/
+theorem scored_exact (E : Env α β) (db : Db α) (cfg : Cfg α) (peaks : List (Peak α)) (prec : Precursor α) :
+    (initialHits E db cfg peaks prec).scored = ((allRaw E db cfg peaks prec).filter PreScore.pos).length := by
+  have hone : ∀ zt, (oneHits E db cfg peaks prec zt).scored =
+      ((rawOf E db cfg peaks (E.mul (E.sub prec.mz E.proton) (E.ofNat zt.1)) zt.1 zt.2).filter PreScore.pos).length :=
+    fun zt => matchedPeaks_scored E db cfg peaks _ zt.1 zt.2
+  have hfold : ((searched E cfg prec).foldl (fun h zt => h.add (oneHits E db cfg peaks prec zt)) ({} : Hits)).scored =
+      ((allRaw E db cfg peaks prec).filter PreScore.pos).length := by
+    unfold allRaw
+    rw [foldl_add_scored, length_filter_flatMap]
+    simp only [hone]
+    show 0 + _ = _
+    omega
+  rw [initialHits_eq]
+  show (if cfg.wideWindow then _ else _ : Hits).scored = _
+  by_cases hw : cfg.wideWindow = true
+  · rw [if_pos hw]; exact hfold
+  · rw [if_neg hw]
+    split
+    · rename_i zc hc ho
+      rw [hone]
+      unfold allRaw searched
+      rw [if_neg hw, hc, ho]
+      simp
+    · exact hfold
+
+end scored
+
+section labels
+variable {α β : Type} [LinearOrder α] [BEq α]
+
+/-- `scored_candidates` of `Scorer::score` is the counter of `initial_hits` in both modes -/
+theorem search_scored (E : Env α β) (tle : β → β → Bool) (db : Db α) (cfg : Cfg α) (info : PepInfo α)
+    (peaks : List (Peak α)) (prec : Precursor α) :
+    (search E tle db cfg info peaks prec).1 = ((allRaw E db cfg peaks prec).filter PreScore.pos).length := by
+  rw [← scored_exact]
+  unfold search
+  simp only
+  split <;> rfl
+
+/-- **C02.label_spec** — `label: peptide.label()` with `peptide = &self.db[score.peptide]`, in both modes, for every
+    database satisfying the index invariant whose `decoy` flags are aligned with the peptide masses: for every
+    reported PSM the lookup is in bounds (no panic) and the label is `-1` exactly when the database entry with the
+    PSM's peptide index is a decoy, `1` otherwise. (The driver now renders labels with `labelAt`.) -/
+theorem label_spec (E : Env α β) (tle : β → β → Bool) (db : Db α)
+    (inv : Sage.C03.DbInv db.masses db.minv db.frags db.B) (cfg : Cfg α) (info : PepInfo α)
+    (peaks : List (Peak α)) (prec : Precursor α) (decoy : Array Bool) (hsize : decoy.size = db.masses.size)
+    (pl : Psm β × Option Int) (hp : pl ∈ withLabels decoy (search E tle db cfg info peaks prec).2) :
+    pl.1 ∈ (search E tle db cfg info peaks prec).2 ∧
+    ∃ d, decoy[pl.1.pep]? = some d ∧ pl.2 = some (if d then -1 else 1) := by
+  obtain ⟨p, hpm, rfl⟩ := List.mem_map.mp hp
+  refine ⟨hpm, ?_⟩
+  obtain ⟨_, _, _, _, _, _, ⟨m, hm, _, _⟩, _⟩ := search_in_window_all E tle db inv cfg info peaks prec p hpm
+  have hlt : p.pep < decoy.size := by
+    rw [hsize]; exact (Array.getElem?_eq_some_iff.mp hm).1
+  refine ⟨decoy[p.pep], by simp [hlt], ?_⟩
+  simp [labelAt, hlt]
+
+end labels
+
+section removal
+variable {α β : Type} [LinearOrder α] [BEq α] [LawfulBEq α]
+
+/-- **C02.removeMatched_spec** — `remove_matched_peaks(query, psm)`, for every spectrum sorted by mass with intensities
+    `≥ 0`, every peptide / charge / tolerance / `max_fragment_charge` (equality on `f32` taken as lawful: NaN-free):
+    with `fzs` = the (theoretical fragment, fragment charge) pairs of the PSM's peptide over all configured kinds and
+    charges `1..max_fragment_charge`, and `[lo f, hi f]` the fragment window of `f`:
+    * the survivors are a sublist of the input (order and multiplicity kept);
+    * a peak survives iff it is not `==` (mass and intensity) to the peak selected for some `f`;
+    * a window selects nothing iff no peak lies in it; otherwise the selected peak is a peak of the spectrum inside the
+      window, no peak of the window is more intense (C04 `select_spec_tol`), and it is removed.
+    So exactly the most intense peak of each matched window (and its exact duplicates) is removed. -/
+theorem removeMatched_spec (E : Env α β) (ftol : Tol α) (mfcCfg : Option Nat) (info : PepInfo α)
+    (peaks : Array (Peak α)) (pep z : Nat)
+    (hs : Sage.C03.SortedArr (peaks.map (·.mass))) (hnn : ∀ p ∈ peaks.toList, E.ofNat 0 ≤ p.intensity) :
+    let fzs := Sage.C04.fragCharges (info.series pep) (Sage.C04.maxFragmentCharge mfcCfg z)
+    let out := removeMatched E ftol mfcCfg info peaks pep z
+    let lo := fun (f : Sage.C04.FZ α) => E.add (Sage.C04.tolBounds E ftol (Sage.C04.mzOf E f)).1 (E.ofNat 0)
+    let hi := fun (f : Sage.C04.FZ α) => E.add (Sage.C04.tolBounds E ftol (Sage.C04.mzOf E f)).2 (E.ofNat 0)
+    out.toList.Sublist peaks.toList ∧
+    (∀ p, p ∈ out.toList ↔ p ∈ peaks.toList ∧
+        ∀ f ∈ fzs, ∀ q, Sage.C04.select E peaks (Sage.C04.mzOf E f) ftol none = some q →
+          ¬ (q.mass = p.mass ∧ q.intensity = p.intensity)) ∧
+    (∀ f ∈ fzs, (Sage.C04.select E peaks (Sage.C04.mzOf E f) ftol none = none ↔
+        ∀ p ∈ peaks.toList, ¬ (lo f ≤ p.mass ∧ p.mass ≤ hi f))) ∧
+    (∀ f ∈ fzs, ∀ q, Sage.C04.select E peaks (Sage.C04.mzOf E f) ftol none = some q →
+        q ∈ peaks.toList ∧ lo f ≤ q.mass ∧ q.mass ≤ hi f ∧
+        (∀ q' ∈ peaks.toList, lo f ≤ q'.mass → q'.mass ≤ hi f → q'.intensity ≤ q.intensity) ∧
+        q ∉ out.toList) := by
+  intro fzs out lo hi
+  have hout : out.toList = peaks.toList.filter fun p =>
+      !((fzs.filterMap fun f => Sage.C04.select E peaks (Sage.C04.mzOf E f) ftol none).any
+        fun q => q.mass == p.mass && q.intensity == p.intensity) := by
+    show (removeMatched E ftol mfcCfg info peaks pep z).toList = _
+    unfold removeMatched
+    rfl
+  have hmem : ∀ p, p ∈ out.toList ↔ p ∈ peaks.toList ∧
+      ∀ f ∈ fzs, ∀ q, Sage.C04.select E peaks (Sage.C04.mzOf E f) ftol none = some q →
+        ¬ (q.mass = p.mass ∧ q.intensity = p.intensity) := by
+    intro p
+    rw [hout, List.mem_filter]
+    simp only [Bool.not_eq_true', List.any_eq_false, List.mem_filterMap, Bool.and_eq_true, beq_iff_eq,
+      forall_exists_index, and_imp]
+    constructor
+    · rintro ⟨h1, h2⟩
+      exact ⟨h1, fun f hf q hq => h2 q f hf hq⟩
+    · rintro ⟨h1, h2⟩
+      exact ⟨h1, fun q f hf hq => h2 f hf q hq⟩
+  refine ⟨by rw [hout]; exact List.filter_sublist, hmem, ?_, ?_⟩
+  · intro f _
+    exact (Sage.C04.select_spec_tol E peaks (Sage.C04.mzOf E f) ftol none hs hnn).1
+  · intro f hf q hq
+    obtain ⟨h1, h2, h3, h4⟩ := (Sage.C04.select_spec_tol E peaks (Sage.C04.mzOf E f) ftol none hs hnn).2 q hq
+    refine ⟨h1, h2, h3, h4, ?_⟩
+    intro hin
+    exact ((hmem q).mp hin).2 f hf q hq ⟨rfl, rfl⟩
+
+omit [LawfulBEq α] in
+/-- **C02.removeMatched_tic** — `query.total_ion_current` after the removal is the left-to-right sum of the intensities
+    of the remaining peaks, started from `Iterator::sum`'s neutral element. -/
+theorem removeMatched_tic (E : Env α β) (sumZero : α) (ftol : Tol α) (mfcCfg : Option Nat) (info : PepInfo α)
+    (peaks : Array (Peak α)) (pep z : Nat) :
+    (removeMatchedTic E sumZero ftol mfcCfg info peaks pep z).1 = removeMatched E ftol mfcCfg info peaks pep z ∧
+    (removeMatchedTic E sumZero ftol mfcCfg info peaks pep z).2 =
+      ((removeMatched E ftol mfcCfg info peaks pep z).toList.map (·.intensity)).foldl E.add sumZero := by
+  refine ⟨rfl, ?_⟩
+  show ticOf E.add sumZero _ = _
+  unfold ticOf
+  rw [List.foldl_map]
+
+end removal
+
+/-! ### non-vacuity of the search-level theorems
+
+`Scorer::score` on concrete data cannot be evaluated by the kernel (`Array.map` inside C04's `select` is compiled by
+well-founded recursion), so the concrete instances below show (a) that every hypothesis is satisfiable on the toy
+index, (b) the loop-level statement on a run with three rounds, and (c) the concrete candidate / window / counter
+values the search-level statements talk about. -/
+
+def exCfgChim : Cfg Nat := { exCfg with chimera := true, reportPsms := 3 }
+def exCfgWide : Cfg Nat := { exCfg with wideWindow := true, defaultIsoWin := .da 0 3 }
+/-- hypotheses of `search_chimera_rounds` / `search_chimera_best` / `search_in_window_all` / `label_spec` -/
+example : exCfgChim.chimera = true ∧ TotalPre (fun (x y : Nat) => decide (x ≤ y)) ∧
+    (#[false, true, false, true] : Array Bool).size = exDb.masses.size :=
+  ⟨rfl, ⟨fun x y => by simp only [decide_eq_true_eq]; omega, fun x y z => by simp only [decide_eq_true_eq]; omega⟩, rfl⟩
+/-- `chimeraRun_rounds` on the toy run (`remove` does not read the rank): after the PSMs for peptides 2 and 7 the residual
+    "spectrum" is `[7, 2]` and the head of the score vector there is peptide 0 with hyperscore 5 — the third PSM -/
+example : residual (fun (q : List Nat) (f : Psm Int) => f.pep :: q) []
+      ((chimeraLoop (fun (x y : Int) => decide (x ≤ y)) (· - ·) 0 exChimScore (fun q f => f.pep :: q) 2 3 exPrelim 3 [] []).take 2) = [7, 2] ∧
+    ((scoreVector (fun (x y : Int) => decide (x ≤ y)) (exChimScore [7, 2]) 2 exPrelim).map fun c => (c.pre.peptide, c.hs)) =
+      [(0, 5), (9, -14)] := by decide
+/-- wide-window mode: the isolation window `Da(0, 3)` is scaled by the charge: `[100, 106]` at charge 2 around mass 100,
+    `[150, 159]` at charge 3 around mass 150; peptide 3 (mass 110) is now outside at charge 2 as well -/
+example : ((searched exEnv exCfgWide exPrec).map fun zt =>
+      (zt.1, Sage.C04.tolBounds exEnv zt.2 (exEnv.mul (exEnv.sub exPrec.mz exEnv.proton) (exEnv.ofNat zt.1)))) =
+    [(2, (100, 106)), (3, (150, 159))] ∧ exCfgWide.wideWindow = true := by decide
+example : (initialHits exEnv exDb exCfgWide exPeaks exPrec).prelim.toList.filter PreScore.pos =
+    [⟨2, 0, 2, 0⟩, ⟨1, 1, 2, 0⟩, ⟨1, 2, 2, 0⟩] := by decide
+/-- `scored_exact`: three slots with a positive count, one empty slot -/
+example : (initialHits exEnv exDb exCfg exPeaks exPrec).scored = 3 ∧
+    ((allRaw exEnv exDb exCfg exPeaks exPrec).filter PreScore.pos).length = 3 ∧
+    (allRaw exEnv exDb exCfg exPeaks exPrec).length = 4 := by decide
+/-- labels: entry 1 is a decoy, entry 0 a target, index 2 would be out of bounds -/
+example : labelAt #[false, true] 1 = some (-1) ∧ labelAt #[false, true] 0 = some 1 ∧ labelAt #[false, true] 2 = none := by decide
+/-- hypotheses of `removeMatched_spec` on the toy spectrum (sorted masses, intensities ≥ 0), and a matched window: the
+    first b ion (20) of peptide 0 at charge 1 has the window [20, 20], which holds the peak of mass 20 -/
+example : Sage.C03.SortedArr (exPeaks.toArray.map (·.mass)) ∧ (∀ p ∈ exPeaks.toArray.toList, exEnv.ofNat 0 ≤ p.intensity) ∧
+    (Sage.C04.fragCharges (exInfo.series 0) (Sage.C04.maxFragmentCharge none 2)).map
+      (fun f => (Sage.C04.tolBounds exEnv (.da 0 0) (Sage.C04.mzOf exEnv f))) = [(20, 20), (30, 30)] := by
+  refine ⟨?_, fun p _ => Nat.zero_le _, by decide⟩
+  rw [show exPeaks.toArray.map (·.mass) = #[20, 30] from by simp [exPeaks]]
+  exact Sage.C03.sortedAdj_sound _ (by decide)
 
 end Sage.C02
